@@ -1,11 +1,25 @@
 from verif import Q
 
 META = {
- "level_text": "WIP",
- "level_note": "",
- "technique": "bounded symbolic model checking (CBMC/SAT)",
- "assumptions": [],
- "outside_claim": [],
+ "level_text": "Bounded symbolic model checking (CBMC) of the real hash, HMAC, PRF, MGF1, HMAC_DRBG and SHAKE sources with every message/key/seed byte symbolic and the public lengths concrete per query. Decided: (1) the buffering, padding, bit-length encoding, out() non-destructiveness and state()/set_state() logic of md5/sha1/sha224/sha256/sha384/sha512/md5sha1 equals the standard's padding rule for every message of the listed lengths and every split point, including the 2^32-bit and 2^64-bit length carries injected with set_state; (2) multihash == the six standalone functions; (3) HMAC == RFC 2104 for keys shorter/equal/longer than the block; (4) br_hmac_outCT == br_hmac_out == RFC 2104 completion for every len in [min,max] of the listed (prefix,min,max) shapes, context not modified; (5) P_hash/TLS 1.0 PRF/TLS 1.2 PRF == RFC 5246 with the seed in one or three chunks, MGF1 == RFC 8017, HMAC_DRBG == SP 800-90A; (6) SHAKE absorb/pad/squeeze logic == FIPS 202 sponge for the listed injection/production splits. All of these are proved for EVERY compression function / Keccak permutation (call-log oracle), plus known-answer anchors of the real round functions to hashlib values. HKDF == RFC 5869 over a stand-in HMAC bound at the br_hmac_* seam, including the 255-block limit. Partial: lengths beyond the bounds, the round functions themselves beyond the known answers and AESCTR_DRBG are outside.",
+ "level_note": "Trusted: CBMC 6.11 C front end and bit-precise semantics; loop-model memcpy/memset; the oracle argument of harness/C13_oracle.h (equal inputs give equal outputs is the only property of the compression function that is used); lengths as listed per query.",
+ "technique": "bounded symbolic model checking (CBMC/SAT): real C units vs references written from RFC 1321 / FIPS 180-4 / RFC 2104 / RFC 5246 / RFC 8017 / SP 800-90A / FIPS 202, compression functions abstracted to a call-log oracle at their link-time symbols",
+ "assumptions": [
+  "compression functions br_md5_round / br_sha1_round / br_sha2small_round (link-time symbols of inner.h, bound by the harness, which goto-cc lets win over the definitions in md5.c/sha1.c/sha2small.c; a seam CHECK in every query proves the binding) and the static sha2big_round / shake.c:process_block (call sites redirected by a function-like macro over the #included real file) are replaced by a call-log oracle that returns unconstrained values, the same value for the paired call of the other side iff block and chaining input are equal: every real function is one behaviour of the oracle, so proved equalities hold for every compression function; references must make their compression calls in the order of the code under test",
+  "HKDF queries only: HMAC = cheap keyed accumulator (sum/rotate-by-one lanes; every key byte, message byte, position and the total length influence every output byte; real out_len semantics) bound at the link-time seam br_hmac_{key_init,init,update,out}; hash descriptor = stand-in br_hash_class with only `desc`",
+  "reported violations are replayed natively with the real compression functions before they are printed",
+  "process_block is assumed to map the lane-complemented state C(S) to C(f(S)) for a permutation f (checked only at the known answers)",
+  "message, key, seed, label, output lengths and split points are concrete per query (label fixed to 'key expansion')",
+  "ESP8266 PROGMEM accessors are the plain-load versions of inc/pgmspace.h (host build of the port)",
+ ],
+ "outside_claim": [
+  "correctness of the MD5/SHA-1/SHA-2 compression functions and of Keccak-f beyond the two known answers per function (probe: even 'two identical br_md5_round calls give equal results' gets no verdict in 120 s on minisat/cadical/kissat/z3)",
+  "HKDF over the real hmac.c + hash files (symbolic execution of br_hkdf_context -- a union of br_hmac_context, itself holding the 8-member br_hash_compat_context union, with br_hmac_key_context -- did not finish in 20 minutes for the smallest case; MODE 4 of C13_kdf.c is kept but not registered): hkdf.c is checked over a stand-in HMAC instead",
+  "AESCTR_DRBG (not attempted: no standard to compare with; its documented Hirose construction needs an AES model)",
+  "message lengths beyond 2 blocks + 9 bytes, outCT shapes beyond the listed ones, PRF/MGF1/DRBG output lengths beyond the listed ones",
+  "constant-time behaviour of br_hmac_outCT (C08)",
+ ],
+ "mutants_tried": [],
 }
 
 CODEC = ["src/codec/dec32le.c", "src/codec/enc32le.c", "src/codec/dec32be.c", "src/codec/enc32be.c",
@@ -13,46 +27,223 @@ CODEC = ["src/codec/dec32le.c", "src/codec/enc32le.c", "src/codec/dec32be.c", "s
 # CBMC's field-sensitive expansion of every array element costs more than it saves here
 # (profiling: field_sensitivityt::get_fields dominated symex); arrays stay arrays.
 FS0 = ["--max-field-sensitivity-array-size", "0"]
+FS32 = ["--max-field-sensitivity-array-size", "32"]
 HNAME = {1: "md5", 2: "sha1", 3: "sha224", 4: "sha256", 5: "sha384", 6: "sha512", 7: "md5sha1"}
 HUNITS = {1: ["src/hash/md5.c"], 2: ["src/hash/sha1.c"], 3: ["src/hash/sha2small.c"], 4: ["src/hash/sha2small.c"],
           5: [], 6: [], 7: ["src/hash/md5.c", "src/hash/sha1.c", "src/hash/md5sha1.c"]}
 HBS = {1: 64, 2: 64, 3: 64, 4: 64, 5: 128, 6: 128, 7: 64}
+HMAC = ["src/mac/hmac.c", "src/mac/hmac_ct.c", "src/codec/ccopy.c"]
+ALLHASH = ["src/hash/md5.c", "src/hash/sha1.c", "src/hash/sha2small.c", "src/hash/multihash.c"]
+KUNITS = {1: ["src/ssl/prf.c"], 2: ["src/ssl/prf.c", "src/ssl/prf_md5sha1.c"], 3: ["src/ssl/prf.c"],
+          4: ["src/kdf/hkdf.c"], 5: ["src/hash/mgf1.c"], 6: ["src/rand/hmac_drbg.c"]}
+EVERY = " (every message content; every compression function)"
 
 
-def hq(name, hf, mode, L, extra=(), tier="quick", timeout=240, desc=""):
+def tmo(tier):
+    return 900 if tier == "thorough" else 300
+
+
+def hq(name, hf, mode, L, extra=(), tier="quick", desc=""):
     return Q(name, "C13_hash.c", units=HUNITS[hf] + CODEC,
              defs=["-DHF=%d" % hf, "-DMODE=%d" % mode, "-DMLEN=%d" % L] + list(extra),
-             unwind=max(L, 2 * HBS[hf]) + 3, tier=tier, timeout=timeout, desc=desc, flags=FS0)
+             unwind=max(L, 2 * HBS[hf]) + 3, tier=tier, timeout=tmo(tier), desc=desc + EVERY, flags=FS0)
 
 
-HMAC = ["src/mac/hmac.c", "src/mac/hmac_ct.c", "src/codec/ccopy.c"]
-
-
-def mq(name, hf, mode, defs, unwind, tier="quick", timeout=240, desc="", maxcalls=6):
+def mq(name, hf, mode, defs, unwind, tier="quick", desc="", maxcalls=6):
     return Q(name, "C13_hmac.c", units=HUNITS[hf] + HMAC + CODEC,
              defs=["-DHF=%d" % hf, "-DMODE=%d" % mode, "-DC13_MAXCALLS=%d" % maxcalls] + list(defs),
-             unwind=unwind, tier=tier, timeout=timeout, desc=desc, flags=FS0, objbits=12)
+             unwind=unwind, tier=tier, timeout=tmo(tier), desc=desc + EVERY, flags=FS0, objbits=12)
 
 
-KUNITS = {1: ["src/ssl/prf.c"], 2: ["src/ssl/prf.c", "src/ssl/prf_md5sha1.c"],
-          3: ["src/ssl/prf.c", "src/ssl/prf_sha256.c", "src/ssl/prf_sha384.c"],
-          4: ["src/kdf/hkdf.c"], 5: ["src/hash/mgf1.c"], 6: ["src/rand/hmac_drbg.c"]}
-
-
-def kq(name, hf, mode, defs, unwind=140, tier="quick", timeout=240, desc="", maxcalls=20):
+def kq(name, hf, mode, defs, unwind=140, tier="quick", desc="", maxcalls=20):
     units = HUNITS[hf] + (HMAC if mode != 5 else []) + KUNITS[mode] + CODEC
     if mode == 3:
-        units = HUNITS[hf] + HMAC + ["src/ssl/prf.c", "src/ssl/prf_sha256.c" if hf == 4 else "src/ssl/prf_sha384.c"] + CODEC
+        units += ["src/ssl/prf_sha256.c" if hf == 4 else "src/ssl/prf_sha384.c"]
     return Q(name, "C13_kdf.c", units=units,
-             defs=["-DHF=%d" % hf, "-DMODE=%d" % mode, "-DC13_MAXCALLS=%d" % maxcalls, "-DC13_NLOG=1", "-DC13_NFRESH=%d" % (maxcalls + 4)] + list(defs),
-             unwind=unwind, tier=tier, timeout=timeout, desc=desc, flags=FS0, objbits=12)
+             defs=["-DHF=%d" % hf, "-DMODE=%d" % mode, "-DC13_MAXCALLS=%d" % maxcalls, "-DC13_NLOG=1",
+                   "-DC13_NFRESH=%d" % (maxcalls + 4)] + list(defs),
+             unwind=unwind, tier=tier, timeout=tmo(tier), desc=desc + EVERY, flags=FS0, objbits=12)
 
 
-ALLHASH = ["src/hash/md5.c", "src/hash/sha1.c", "src/hash/sha2small.c", "src/hash/multihash.c"]
+def ranges(lo, hi, step):
+    return [(a, min(a + step - 1, hi)) for a in range(lo, hi + 1, step)]
+
+
+def hash_queries():
+    qs = []
+    d_outnd = "%s: for every split s in %s of a %d-byte message: out() after s bytes == standard padding reference and leaves the context unchanged; update(m[0..s)); out; update(m[s..)) ends like update(m): digest, state(), count, buffer"
+    sparse64 = "0,1,54,55,56,57,63,64,65,73"
+    sparse128 = "0,1,110,111,112,113,127,128,129,137"
+    # quick: every split of a (block + 9)-byte message for md5 / sha1 / sha256, boundary splits for the others
+    for hf in (1, 2, 4):
+        L = HBS[hf] + 9
+        for (lo, hi) in ranges(0, L, 19):
+            qs.append(hq("hash-outnd-%s-L%d-s%d-%d" % (HNAME[hf], L, lo, hi), hf, 2, L, ["-DSLO=%d" % lo, "-DSHI=%d" % hi],
+                         desc=d_outnd % (HNAME[hf], "%d..%d" % (lo, hi), L)))
+    for hf in (3, 7, 5, 6):
+        L = HBS[hf] + 9
+        sl = sparse64 if HBS[hf] == 64 else sparse128
+        for half, lst in enumerate((sl.split(",")[:5], sl.split(",")[5:])):
+            qs.append(hq("hash-outnd-%s-L%d-sparse%d" % (HNAME[hf], L, half), hf, 2, L, ["-DSLIST=" + ",".join(lst)],
+                         desc=d_outnd % (HNAME[hf], "{" + ",".join(lst) + "}", L)))
+    # three updates (one of them empty)
+    for hf in (1, 6):
+        L = 2 * HBS[hf] + 9
+        lst = "0,1,%d,%d,%d,%d" % (HBS[hf] - 1, HBS[hf], 2 * HBS[hf] - 8, L)
+        qs.append(hq("hash-split3-%s-L%d" % (HNAME[hf], L), hf, 1, L, ["-DTHREE=1", "-DSLIST=" + lst],
+                     desc="%s: update(m) == update(a); update(b); update(empty); update(c) for a = {%s} bytes, b = half of the rest, of a %d-byte message" % (HNAME[hf], lst, L)))
+    # state()/set_state() restore
+    for hf in (1, 2, 3, 4, 5, 6, 7):
+        L = 2 * HBS[hf] + 9
+        qs.append(hq("hash-save-%s-L%d" % (HNAME[hf], L), hf, 3, L,
+                     desc="%s: state() after one block, set_state() into a garbage-filled init'ed context, continue over %d more bytes: same digest/state/count/buffer as the original" % (HNAME[hf], L - HBS[hf])))
+    # padding + length encoding around the carries, through set_state(count)
+    for hf in (1, 2, 3, 4, 7):
+        for L in (55, 65):
+            qs.append(hq("hash-carry32-%s-L%d" % (HNAME[hf], L), hf, 4, L, ["-DUSE_ST=1", "-DCNT0=0x1FFFFFC0ull"],
+                         desc="%s: symbolic chaining value, set_state(count=0x1FFFFFC0) then %d bytes: out() == standard padding with the 64-bit bit length (crosses 2^32 bits for L=65); also through the vtable; descriptor fields" % (HNAME[hf], L)))
+    for hf in (5, 6):
+        for (cn, c) in (("carry64", "0x1FFFFFFFFFFFFF80ull"), ("carry32", "0x1FFFFF80ull")):
+            for L in (111, 129):
+                qs.append(hq("hash-%s-%s-L%d" % (cn, HNAME[hf], L), hf, 4, L, ["-DUSE_ST=1", "-DCNT0=" + c],
+                             desc="%s: symbolic chaining value, set_state(count=%s) then %d bytes: out() == standard padding with the 128-bit bit length (carry into the upper 64 bits for L=129); also through the vtable; descriptor fields" % (HNAME[hf], c, L)))
+    for hf in (1, 2, 3, 4, 5, 6, 7):
+        for L in (0, HBS[hf] - 8):
+            qs.append(hq("hash-pad-%s-L%d" % (HNAME[hf], L), hf, 4, L,
+                         desc="%s: out() == standard padding reference for a %d-byte message from init(); through the vtable; descriptor fields" % (HNAME[hf], L)))
+    # thorough: every split of a (2 blocks + 9)-byte message
+    for hf in (1, 2, 3, 4, 5, 6, 7):
+        L = 2 * HBS[hf] + 9
+        for (lo, hi) in ranges(0, L, 12 if HBS[hf] == 64 else 8):
+            qs.append(hq("hash-outnd-%s-L%d-s%d-%d" % (HNAME[hf], L, lo, hi), hf, 2, L, ["-DSLO=%d" % lo, "-DSHI=%d" % hi, "-DC13_MAXCALLS=8"],
+                         tier="thorough", desc=d_outnd % (HNAME[hf], "%d..%d" % (lo, hi), L)))
+    return qs
+
+
+def mhash_queries():
+    qs = []
+    base = ["-DC13_MAXCALLS=14", "-DC13_NLOG=1", "-DC13_NFRESH=24"]
+    d = "multihash (%s): zero/setimpl/init, update(m[0..s)); update(m[s..%d)) for s in {%s}: out(id) == standalone function and its size for configured ids, 0 otherwise; out() keeps the context"
+    for (nm, mask, L, sl, tier) in (("all6", "0x3F", 137, "64", "quick"), ("all6", "0x3F", 137, "129", "quick"), ("md5-sha224-sha384", "0x15", 137, "0", "quick"),
+                                    ("sha1-sha256-sha512", "0x2A", 130, "1", "quick"),
+                                    ("all6", "0x3F", 265, "0", "thorough"), ("all6", "0x3F", 265, "127", "thorough"), ("all6", "0x3F", 265, "128", "thorough"),
+                                    ("all6", "0x3F", 265, "200", "thorough"), ("all6", "0x3F", 265, "265", "thorough"), ("all6", "0x3F", 137, "1", "thorough"),
+                                    ("all6", "0x3F", 137, "127", "thorough"), ("all6", "0x3F", 137, "128", "thorough"), ("all6", "0x3F", 137, "137", "thorough")):
+        qs.append(Q("multihash-%s-L%d-s%s" % (nm, L, sl), "C13_mhash.c", units=ALLHASH + CODEC,
+                    defs=["-DMLEN=%d" % L, "-DMASK=" + mask, "-DSLIST=" + sl] + base, unwind=430, flags=FS32, tier=tier, timeout=tmo(tier),
+                    desc=d % (nm, L, sl) + EVERY))
+    return qs
+
+
+def hmac_queries():
+    qs = []
+    dk = "HMAC-%s: key_init/init/update(2 pieces)/out == RFC 2104 on the plain hash API, key %d bytes (block %d), message %d bytes, requested output length %d; out() keeps the context; second HMAC from the same key context; br_hmac_size/get_digest"
+    for (hf, kl, ml, ol, tier) in ((1, 0, 20, 0, "quick"), (1, 63, 20, 0, "quick"), (1, 64, 20, 0, "quick"), (1, 65, 20, 0, "quick"),
+                                   (2, 20, 70, 12, "quick"), (4, 32, 56, 0, "quick"), (4, 100, 20, 40, "quick"), (5, 129, 20, 0, "quick"), (5, 128, 112, 24, "quick"),
+                                   (2, 64, 0, 0, "thorough"), (2, 65, 137, 0, "thorough"), (3, 65, 20, 0, "thorough"), (6, 200, 130, 0, "thorough"), (6, 64, 20, 0, "thorough")):
+        qs.append(mq("hmac-%s-K%d-M%d-O%d" % (HNAME[hf], kl, ml, ol), hf, 1, ["-DKL=%d" % kl, "-DML=%d" % ml, "-DOL=%d" % ol], unwind=420, tier=tier,
+                     desc=dk % (HNAME[hf], kl, HBS[hf], ml, ol), maxcalls=10))
+    dc = "br_hmac_outCT(%s; %d bytes already injected; min %d, max %d) for every len in %d..%d and every data[0..max), every key state: == RFC 2104 completion over data[0..len) == br_hmac_update+br_hmac_out; returned length (requested %d); context not modified"
+
+    def ct(hf, pl, mn, mx, lo, hi, tier, ol=0):
+        km = 3 * HBS[hf] + mx + pl
+        qs.append(mq("outct-%s-P%d-%d-%d-len%d-%d%s" % (HNAME[hf], pl, mn, mx, lo, hi, "-t" if tier == "thorough" else ""), hf, 2,
+                     ["-DPL=%d" % pl, "-DMINL=%d" % mn, "-DMAXL=%d" % mx, "-DLLO=%d" % lo, "-DLHI=%d" % hi, "-DOL=%d" % ol],
+                     unwind=max(km, 80) + 10, tier=tier, desc=dc % (HNAME[hf], pl, mn, mx, lo, hi, ol), maxcalls=4 + (pl + mx) // HBS[hf]))
+    # quick: ends and padding-boundary straddles of several shapes
+    for (lo, hi) in ((0, 1), (42, 43), (69, 70)):
+        ct(1, 13, 0, 70, lo, hi, "quick")
+    for (lo, hi) in ((20, 20), (42, 43), (90, 90)):
+        ct(2, 13, 20, 90, lo, hi, "quick")
+    for (lo, hi) in ((0, 0), (42, 43), (52, 52)):
+        ct(4, 13, 0, 52, lo, hi, "quick", ol=(12 if lo == 0 else 0))
+    ct(5, 13, 60, 140, 98, 99, "quick")
+    ct(5, 13, 60, 140, 140, 140, "quick")
+    ct(1, 0, 70, 100, 70, 70, "quick")
+    ct(1, 0, 70, 100, 100, 100, "quick")
+    ct(1, 77, 0, 10, 0, 1, "quick")
+    ct(1, 13, 33, 33, 33, 33, "quick")
+    # thorough: every len
+    for (lo, hi) in ranges(0, 70, 6):
+        ct(1, 13, 0, 70, lo, hi, "thorough")
+    for (lo, hi) in ranges(0, 130, 6):
+        ct(2, 13, 0, 130, lo, hi, "thorough")
+    for (lo, hi) in ranges(0, 70, 6):
+        ct(4, 5, 0, 70, lo, hi, "thorough")
+    for (lo, hi) in ranges(60, 140, 4):
+        ct(5, 13, 60, 140, lo, hi, "thorough")
+    for (lo, hi) in ranges(70, 100, 6):
+        ct(1, 0, 70, 100, lo, hi, "thorough")
+    for (lo, hi) in ranges(100, 130, 6):
+        ct(3, 64, 100, 130, lo, hi, "thorough")
+    for (lo, hi) in ranges(0, 20, 4):
+        ct(6, 120, 0, 20, lo, hi, "thorough")
+    return qs
+
+
+def kdf_queries():
+    qs = []
+    qs.append(kq("phash-md5-O21", 1, 1, ["-DOUTL=21"],
+                 desc="br_tls_phash(MD5): 21 output bytes (2 iterations, last partial) XORed into dst == RFC 5246 P_hash; 12-byte secret, 20-byte seed as one chunk and as 7+0+13 chunks"))
+    qs.append(kq("tls10prf-O21", 7, 2, ["-DOUTL=21", "-DSL=13", "-DONECHUNK=0"],
+                 desc="br_tls10_prf: 21 output bytes == P_MD5(S1) xor P_SHA-1(S2) of RFC 2246 with a 13-byte secret (halves overlap), seed as 7+0+13 chunks, previous dst contents ignored"))
+    qs.append(kq("tls12prf-sha256-O35", 4, 3, ["-DOUTL=35", "-DONECHUNK=0"],
+                 desc="br_tls12_sha256_prf: 35 output bytes == RFC 5246 PRF, seed as 7+0+13 chunks, previous dst contents ignored"))
+    qs.append(kq("mgf1-sha1-O45", 2, 5, ["-DOUTL=45"], desc="br_mgf1_xor(SHA-1): 45 bytes (3 blocks, last partial) == RFC 8017 B.2.1 XORed into data, 20-byte seed"))
+    qs.append(kq("mgf1-sha256-O32-seed70", 4, 5, ["-DOUTL=32", "-DSDL=70"], desc="br_mgf1_xor(SHA-256): 32 bytes == RFC 8017 B.2.1, 70-byte seed (seed||counter spans two blocks)"))
+    qs.append(kq("hmacdrbg-md5-init-gen5", 1, 6, ["-DOUTL=5", "-DSDL=8", "-DPHASE2=0"], maxcalls=30, unwind=210,
+                 desc="br_hmac_drbg_init(8-byte seed) + generate(5): output and final K,V == SP 800-90A 10.1.2 HMAC_DRBG"))
+    # thorough
+    qs.append(kq("phash-sha1-longsecret-O41", 2, 1, ["-DOUTL=41", "-DSL=70"], tier="thorough", maxcalls=30,
+                 desc="br_tls_phash(SHA-1): 41 bytes (3 iterations), 70-byte secret (longer than the block), seed as one chunk and as three"))
+    qs.append(kq("tls10prf-O37-both", 7, 2, ["-DOUTL=37", "-DSL=16"], tier="thorough", maxcalls=30,
+                 desc="br_tls10_prf: 37 bytes, 16-byte secret, seed as one chunk and as three"))
+    qs.append(kq("tls12prf-sha256-O70-both", 4, 3, ["-DOUTL=70"], tier="thorough", maxcalls=30,
+                 desc="br_tls12_sha256_prf: 70 bytes, seed as one chunk and as three"))
+    qs.append(kq("tls12prf-sha384-O50", 5, 3, ["-DOUTL=50", "-DONECHUNK=0"], tier="thorough", maxcalls=30,
+                 desc="br_tls12_sha384_prf: 50 bytes (2 iterations), seed as three chunks"))
+    qs.append(kq("hmacdrbg-md5-full", 1, 6, ["-DOUTL=20", "-DSDL=20"], tier="thorough", maxcalls=60, unwind=210,
+                 desc="br_hmac_drbg_init(20-byte seed), generate(20), update(4 bytes), generate(3) through the vtable == SP 800-90A"))
+    qs.append(kq("hmacdrbg-sha256-init-gen33", 4, 6, ["-DOUTL=33", "-DSDL=48", "-DPHASE2=0"], tier="thorough", maxcalls=40, unwind=210,
+                 desc="br_hmac_drbg_init(48-byte seed) + generate(33) with SHA-256 == SP 800-90A"))
+    return qs
+
+
+def hkdf_queries():
+    qs = []
+    d = "br_hkdf_init/inject(2 pieces)/flip/produce(%d + 0 + rest) == RFC 5869 extract+expand, %s, 11-byte IKM, 3-byte info, %d output bytes, digest length %d%s; HMAC = stand-in keyed accumulator at the br_hmac_* link seam (every key/IKM/info/salt content)"
+    for (nm, defs, tier, what) in (("salt5-H16-O21", ["-DHLEN=16", "-DOUTL=21"], "quick", (5, "5-byte salt", 21, 16, "")),
+                                   ("nosalt-H16-O21", ["-DHLEN=16", "-DOUTL=21", "-DSALTL=-1", "-DO1=16"], "quick", (16, "BR_HKDF_NO_SALT", 21, 16, "")),
+                                   ("limit255-H16", ["-DHLEN=16", "-DOUTL=37", "-DCHUNK0=254"], "quick", (5, "5-byte salt", 37, 16, ", expansion resumed at block 254 by state injection: exactly one more block (255) is produced")),
+                                   ("salt5-H32-O70", ["-DHLEN=32", "-DOUTL=70"], "thorough", (5, "5-byte salt", 70, 32, "")),
+                                   ("salt70-H20-O45", ["-DHLEN=20", "-DOUTL=45", "-DSALTL=70", "-DO1=20"], "thorough", (20, "70-byte salt", 45, 20, ""))):
+        qs.append(Q("hkdf-" + nm, "C13_hkdf.c", units=["src/kdf/hkdf.c"], defs=defs, unwind=100, backend="kissat", tier=tier, timeout=tmo(tier), desc=d % what))
+    return qs
+
+
+def shake_queries():
+    qs = []
+    d = "br_shake_* (security %d, rate %d): %d-byte message injected as %d + 0 + rest, %d bytes produced as %d + rest == FIPS 202 sponge (suffix 1111, pad10*1) for every permutation"
+    cases = [(128, 177, 173, 0, 0, "quick"), (128, 177, 173, 1, 1, "quick"), (128, 177, 173, 167, 168, "quick"), (128, 177, 173, 168, 173, "quick"),
+             (128, 177, 173, 177, 169, "quick"), (256, 135, 141, 0, 136, "quick"), (256, 135, 141, 135, 0, "quick"), (256, 136, 141, 136, 137, "quick"),
+             (128, 345, 341, 100, 100, "thorough"), (128, 345, 341, 336, 168, "thorough"), (256, 281, 277, 136, 272, "thorough"), (256, 0, 10, 0, 5, "thorough"),
+             (128, 167, 168, 166, 168, "thorough"), (128, 168, 337, 5, 336, "thorough")]
+    for (sec, ml, ol, s, t, tier) in cases:
+        qs.append(Q("shake%d-L%d-O%d-i%d-o%d" % (sec, ml, ol, s, t), "C13_shake.c", units=[],
+                    defs=["-DSEC=%d" % sec, "-DML=%d" % ml, "-DOUTL=%d" % ol, "-DISPLITS=%d" % s, "-DOSPLITS=%d" % t, "-DMAXP=8"],
+                    unwind=max(ml, ol, 200) + 10, flags=FS0, tier=tier, timeout=tmo(tier), desc=d % (sec, 200 - sec // 4, ml, s, ol, t)))
+    return qs
+
+
+def kat_queries():
+    qs = []
+    for w, u, nm in ((1, ["src/hash/md5.c"], "md5"), (2, ["src/hash/sha1.c"], "sha1"), (3, ["src/hash/sha2small.c"], "sha224"),
+                     (4, ["src/hash/sha2small.c"], "sha256"), (5, ["src/hash/sha2big.c"], "sha384"), (6, ["src/hash/sha2big.c"], "sha512"),
+                     (7, ["src/kdf/shake.c"], "shake128+shake256")):
+        qs.append(Q("kat-" + nm, "C13_kat.c", units=u + CODEC, defs=["-DWHICH=%d" % w], unwind=210, flags=FS0,
+                    desc="known answers with the REAL round functions: %s of 'abc' and of bytes 0..199 (two updates) == Python hashlib values (concrete inputs; decided by constant folding)" % nm))
+    return qs
 
 
 def queries():
-    qs = []
-    qs.append(Q("shake128-L177", "C13_shake.c", units=[], defs=["-DSEC=128"], unwind=210, flags=FS0, timeout=600))
-    qs.append(Q("shake256-L135", "C13_shake.c", units=[], defs=["-DSEC=256", "-DML=135", "-DISPLITS=0,135", "-DOSPLITS=0,136"], unwind=210, flags=FS0, timeout=600))
-    return qs
+    return hash_queries() + mhash_queries() + hmac_queries() + kdf_queries() + hkdf_queries() + shake_queries() + kat_queries()
